@@ -1,9 +1,11 @@
 -- REGENERATED from src/build/build_step.go, src/build/incrementality.go, src/fs/fs.go, src/fs/attr.go by /verif/harness/extract/c32 on every run. Do not edit.
 namespace PlzVerif.Generated.C32
-def buildPhases : List String := ["metadata", "move", "stamp", "cache"]
+def buildPhases : List String := ["unstamp", "metadata", "move", "stamp", "cache"]
 def loadMetadataFailureIsFatal : Bool := true
 def buildFailureCalls : List String := ["buildTarget", "RemoveOutputs"]
 def removeOutputsCalls : List String := ["Outputs", "RemoveAll"]
+def oldOutputsRehashedBeforeCommand : Bool := true
+def outputHashRecalcArgs : List String := ["true", "true"]
 def stampPhaseCalls : List String := ["OutputHash", "writeRuleHash"]
 def moveOutputsLoopsOverOutputs : Bool := true
 def moveOutputCalls : List String := ["Hash", "PathExists", "Hash", "Equal", "RemoveAll", "PathExists", "MkdirAll", "Rename", "RecursiveCopy"]
@@ -11,6 +13,9 @@ def moveOutputKeepsBeforeRemove : Bool := true
 def storeMetadataCalls : List String := ["RemoveAll", "MkdirAll", "Create", "Encode"]
 def writeRuleHashSteps : List String := ["if(len(outputs) == 0):RecordAttrFile", "range(outputs):RecordAttr(element)", "if(FileExists):RecordAttr(targetBuildMetadataFileName)"]
 def writeRuleHashOverFullOutputs : Bool := true
+def removeRuleHashSteps : List String := ["if(len(outputs) == 0):RemoveAttr", "range(outputs):RemoveAttr(element)"]
+def removeRuleHashOverFullOutputs : Bool := true
+def removeAttrCalls : List String := ["Remove", "fallbackFileName", "LRemove", "LRemove"]
 def readLoop : List String := ["cur=ReadAttr(element)", "if(cur==nil)→empty", "if(acc!=nil&&!bytes.Equal(acc,cur))→empty", "acc=cur"]
 def needsBuildingMetadataMissingFirst : Bool := true
 def needsBuildingChecksEveryOutput : Bool := true
